@@ -321,6 +321,7 @@ def check_conc(pid, name, cases, res):
             C.coq_list([C.coq_list([C.coq_bool(b) for b in a]) for a in answers]), C.coq_list(events),
             C.coq_list([b for _, b in thr]), case['len_end'])
         mapped.append((case, term, contended, stats))
+    searched = []
     for part, chunk in enumerate(C.chunks(mapped, 12)):
         r = C.coq_eval(pid, '%s_%d' % (name, part), HEADER + 'Definition cases : list conc_case := %s.\n' % C.coq_list([t for _, t, _, _ in chunk]),
                        [('R_mis', 'conc_mismatches cases'), ('R_vio', 'conc_violations cases'), ('R_stat', 'map conc_stats cases')])
@@ -351,15 +352,32 @@ def check_conc(pid, name, cases, res):
                 res.violations.append(dict(signature='C14/recorded-but-not-delivered', what='a message whose key was recorded as new did not reach the handler / the inner publisher (or a duplicate did): later messages with that key are dropped although none got through',
                                            case=describe_conc(case, st)))
             if i in mis and problems:
-                mis[i] = [k for k in mis[i] if k == 5]      # replay codes of an unmappable log say nothing
+                mis[i] = [k for k in mis[i] if k in (1, 5)]   # with clock problems only a rejected label and the outcomes still mean something
                 if not mis[i]:
                     del mis[i]
             if i in mis:
                 if 5 in mis[i] and not codes:
                     res.violations.append(dict(signature='C14/outcome-differs', what='a middleware / decorator call did not do what the property says with the repository\'s answer (duplicates dropped as successes without invoking, everything else passed through unchanged)',
                                                case=describe_conc(case, st)))
-                res.mismatches.append(dict(kind='Corr.C14.conc_replay (Dedup/Model.v vs deduplicator.go): ' + '; '.join(CODES.get(k, str(k)) for k in mis[i]),
-                                           explained_by_violation=bool(codes) or 5 in mis[i], case=describe_conc(case, st)))
+                rec = dict(kind='Corr.C14.conc_replay (Dedup/Model.v vs deduplicator.go): ' + '; '.join(CODES.get(k, str(k)) for k in mis[i]),
+                           explained_by_violation=bool(codes) or 5 in mis[i], case=describe_conc(case, st))
+                if 1 in mis[i] and (not codes or os.environ.get('C14_SEARCH_ALWAYS')) and len(searched) < 3:
+                    # the implementation made a step the model does not have and no acceptor objects:
+                    # search the model (with that liberty) for the shortest continuation that violates the property
+                    searched.append(1)
+                    try:
+                        sr = C.coq_eval(pid, '%s_search_%d_%d' % (name, part, i), HEADER + 'Definition c : conc_case := %s.\n' % chunk[i][1],
+                                        [('R_s', 'conc_search 8 c')], timeout=300)['R_s']
+                        idx, thr1, cont = sr
+                        rec['model_side_search'] = dict(
+                            rejected_label_index=idx, rejected_thread=thr1 - 1 if thr1 else None, depth=8,
+                            shortest_violating_continuation=[('thread %d steps' % t) for t in cont] or None,
+                            note=('from the last state on which model and implementation agree, letting the rejected step happen (mutex forced free), this '
+                                  'continuation makes the timed-set specification reject the trace: a prediction of how the deviation breaks the property, not a failing input')
+                                 if cont else 'no continuation of at most 8 steps of the threads involved violates the specification')
+                    except Exception as e:
+                        rec['model_side_search'] = dict(error=str(e)[-300:])
+                res.mismatches.append(rec)
     # the API-level history of every case (also of those whose stamps could not be mapped)
     apic = [c for c in cases if not c.get('panicked')]
     for part, chunk in enumerate(C.chunks(apic, 30)):
